@@ -146,7 +146,17 @@ Example C15_nonvacuous :
   end.
 Proof. vm_compute. split; reflexivity. Qed.
 
-(* T15d (shift invariance) is NOT proved here: see DESIGN.md C15 — the
+(* T15d (shift invariance) is REFUTED for non-integer times (finding D20):
+   the sample-point lookup compares fl(parse t + 5) with parse (t + 5).  A
+   circle at 0.06 sees a sample point at 5.06; after a shift by 7 ms the circle
+   at 7.06 does NOT see the point at 12.06. *)
+Definition dec2 (m : Z) : F64 := D.of_decimal false m (-2).     (* m / 100 *)
+Example C15_shift_refuted_fractional :
+  D.lt (D.add (dec2 6) f64_5) (dec2 506) = false /\      (* 0.06 + 5 >= 5.06: point active  *)
+  D.lt (D.add (dec2 706) f64_5) (dec2 1206) = true.       (* 7.06 + 5 <  12.06: point missed *)
+Proof. vm_compute. split; reflexivity. Qed.
+
+(* For integer times T15d (shift invariance) is NOT proved here: see DESIGN.md C15 — the
    statement "shifting every time by k commutes with decoding" needs
    parse(t + k) = parse(t) + k and exactness of every float comparison against
    shifted times; the check's oracle tests it on integer times and shifts. *)
